@@ -27,17 +27,17 @@ theorem isLocal_cases {d : DepInfo} (h : isLocal d = true) :
   | subdir a b c => exact ⟨a, b, c, rfl⟩
 
 theorem srcDir_subdir {d : DepInfo} {pkg : Option Str} {dir abs : Str} (hs : d.source = .subdir pkg dir abs) :
-    srcDir d = resolve abs := by simp [srcDir, hs]
+    srcDir d = pathResolve abs := by simp [srcDir, hs]
 
-theorem saveHtml_of_copyAll_ok {render : Option Str → Bool → Rendered} {file fileAbs : Str} {libdir : Option Str}
+theorem saveHtml_of_copyAll_ok {render : Option Str → Bool → FsRendered} {file fileAbs : Str} {libdir : Option Str}
     {iv : Bool} {fs fs1 : FS}
     (hc : copyAll (render libdir iv).deps (destDir fileAbs libdir) iv fs = (fs1, .ok ()))
-    (hd : fs1.isDir (resolve fileAbs) = false) (hp : fs1.fileOnPath (resolve fileAbs).dropLast = false) :
+    (hd : fs1.isDir (pathResolve fileAbs) = false) (hp : fs1.fileOnPath (pathResolve fileAbs).dropLast = false) :
     saveHtml render file fileAbs libdir iv fs
-      = (fs1.write (resolve fileAbs) (utf8 (render libdir iv).html), .ok file) := by
+      = (fs1.write (pathResolve fileAbs) (utf8 (render libdir iv).html), .ok file) := by
   simp [saveHtml, hc, hd, hp]
 
-theorem saveHtml_of_copyAll_error {render : Option Str → Bool → Rendered} {file fileAbs : Str}
+theorem saveHtml_of_copyAll_error {render : Option Str → Bool → FsRendered} {file fileAbs : Str}
     {libdir : Option Str} {iv : Bool} {fs fs1 : FS} {e : Err}
     (hc : copyAll (render libdir iv).deps (destDir fileAbs libdir) iv fs = (fs1, .error e)) :
     saveHtml render file fileAbs libdir iv fs = (fs1, .error e) := by
